@@ -403,3 +403,121 @@ def run(ctx):
             desc = readers & {'_value_equality_values_', '__repr__', '_json_dict_', '__eq__'}
             okd = bool(desc) or not ok
             ctx.ob('C07.d', f'{ci.qual}:{p}:in-value', okd, '' if okd else f'option `{p}` affects compilation ({sorted(readers)}) but is absent from equality/repr/JSON: two gatesets compiling differently compare equal', ci.mod.rel, init.lineno)
+
+    _sycamore_dispatch_rule(ctx, repo)
+
+
+def _sycamore_dispatch_rule(ctx, repo):
+    """C07.g - the known-gate fast path of the Sycamore compiler, by interpretation of the dispatcher on model gates."""
+    import numpy as np
+    from .. import fdx
+    from . import c03, decomp
+    ctx.decided.append('C07.g known_2q_op_to_sycamore_operations (interpreted on model gates): a tabulated fixed decomposition (CZ, SWAP, ISWAP) is chosen only for exponents at which '
+                       'the gate equals the tabulated gate up to global phase (the family\'s own eigen-shifts decide), and parametrised helpers receive this gate\'s angle')
+    ctx.rule('C07.g', 'Sycamore known-gate dispatch: for every probe exponent, if the dispatcher hands back the precomputed decomposition of G**1 then G**e == G**1 up to global phase; '
+             'the cphase / rzz helpers are called with e*pi resp. e*pi/2', floor=30, style='FDX')
+    m = repo.module('cirq-google/cirq_google/transformers/analytical_decompositions/two_qubit_to_sycamore.py')
+    fn = m.defs.get('known_2q_op_to_sycamore_operations')
+    if not isinstance(fn, ast.FunctionDef):
+        raise AnalysisError('known_2q_op_to_sycamore_operations vanished')
+
+    class Gm:
+        def __init__(self, names, **attrs):
+            self.names = names
+            self.__dict__.update(attrs)
+
+    class Lib:
+        """stands for a library gate / op expression that is only passed through"""
+        def __init__(self, what):
+            self.what = what
+
+        def __call__(self, *a):
+            return Lib(f'{self.what}({",".join(map(str, a))})')
+
+        def __pow__(self, e):
+            return Lib(f'{self.what}**{e}')
+
+    FAMILIES = {
+        'CZPowGate': ('cirq.ops.common_gates.CZPowGate', {'_decompose_cz_into_syc'}),
+        'SwapPowGate': ('cirq.ops.swap_gates.SwapPowGate', {'_decompose_swap_into_syc'}),
+        'ISwapPowGate': ('cirq.ops.swap_gates.ISwapPowGate', {'_decompose_iswap_into_syc'}),
+        'CNotPowGate': ('cirq.ops.common_gates.CXPowGate', set()),
+        'ZZPowGate': ('cirq.ops.parity_gates.ZZPowGate', set()),
+    }
+    ALIASES = {'CNotPowGate': {'CNotPowGate', 'CXPowGate'}}
+    comps = {}
+
+    def same_up_to_phase(qual, e):
+        if qual not in comps:
+            comps[qual], _ = c03._components(repo, repo.cls(qual), 2)
+        u = sum(np.exp(1j * np.pi * e * t) * mtx for t, mtx in comps[qual])
+        v = sum(np.exp(1j * np.pi * 1 * t) * mtx for t, mtx in comps[qual])
+        k = np.argmax(np.abs(v))
+        ph = u.flat[k] / v.flat[k]
+        return abs(abs(ph) - 1) < 1e-9 and np.allclose(u, ph * v, atol=1e-9)
+    PROBES = (1, -1, 3, 5, 2, 0, 0.5, -3, 7)
+    for fam, (qual, fixed) in FAMILIES.items():
+        for e in PROBES:
+            names = ALIASES.get(fam, {fam})
+            g = Gm(names, exponent=e, _exponent=e, global_shift=0.0, phase_exponent=0.0)
+            op = {'gate': g, 'qubits': ('q0', 'q1'), 'untagged': Gm({'GateOperation'}), 'tags': ()}
+            called = []
+
+            def call_hook(call, it):
+                s = ast.unparse(call.func)
+                last = s.split('.')[-1]
+                if last in ('has_unitary',):
+                    return True
+                if last == 'num_qubits':
+                    return 2
+                if last.startswith('_decompose_') or last in ('_rzz', '_swap_rzz'):
+                    args = [it.ev(a) for a in call.args]
+                    called.append((last, args))
+                    return ('helper', last)
+                return NotImplemented
+
+            def attr_hook(node, it):
+                if isinstance(node.value, ast.Name) and node.value.id == 'cirq':
+                    if not node.attr[0].isupper():
+                        return NotImplemented          # protocol functions are answered by the call hook
+                    return node.attr if node.attr.endswith(('Gate', 'Operation')) else Lib('cirq.' + node.attr)
+                return NotImplemented
+
+            def isinst(v, t):
+                ts = t if isinstance(t, tuple) else (t,)
+                return isinstance(v, Gm) and any(x in v.names for x in ts if isinstance(x, str))
+            it = fdx.NumInterp({'op': op, 'isinstance': isinst}, call_hook=call_hook, attr_hook=attr_hook)
+            orig_attr = it.attr_hook
+
+            def attr2(node, itp, _o=orig_attr):
+                r = _o(node, itp)
+                if r is not NotImplemented:
+                    return r
+                try:
+                    v = itp.ev(node.value)
+                except fdx.Unsupported:
+                    return NotImplemented
+                if isinstance(v, (Gm, Lib)) and hasattr(v, node.attr):
+                    return getattr(v, node.attr)
+                return NotImplemented
+            it.attr_hook = attr2
+            it.resolver = c03.make_resolver(repo, m, fn)      # module-level predicates (helper guards) are interpreted too
+            try:
+                it.call(fn)
+            except fdx.Unsupported as ex:
+                raise AnalysisError(f'known_2q_op_to_sycamore_operations is outside the interpretable subset: {ex}')
+            key = f'sycamore-known-gate:{fam}:e={e}'
+            ok, msg = True, ''
+            for h, args in called:
+                if h in fixed and not same_up_to_phase(qual, e):
+                    ok = False
+                    msg = f'{fam}**{e} is compiled with the precomputed decomposition of {fam}**1 ({h}), but the two gates differ by more than a global phase'
+                if h == '_decompose_cphase_into_syc' and fam in ('CZPowGate', 'CNotPowGate') and abs(float(args[0]) - e * np.pi) > 1e-9:
+                    ok = False
+                    msg = f'{fam}**{e}: cphase helper called with angle {args[0]} instead of {e}*pi'
+                if h == '_rzz' and abs(float(args[0]) - e * np.pi / 2) > 1e-9:
+                    ok = False
+                    msg = f'{fam}**{e}: rzz helper called with angle {args[0]} instead of {e}*pi/2'
+            if e == 1 and not called:
+                raise AnalysisError(f'C07.g: the dispatcher interpretation did not reach any helper for {fam}**1 (model out of date)')
+            ctx.ob('C07.g', key, ok, msg, m.rel, fn.lineno, construct=f'sycamore-known-gate:{fam}')
